@@ -67,6 +67,7 @@ func TestNeverWrong(t *testing.T) {
 		ev.Case(string(b)+fmt.Sprint(r.Log), nt, cls...)
 		ev.ExtraAdd("lookups", int64(r.Lookups))
 		ev.ExtraAdd("hits", int64(r.Hits))
+		ev.ExtraAdd("direct_block_writes", int64(r.DirectBlockWrites))
 		if nt && ev.WantSample() {
 			lg := r.Log
 			if len(lg) > 60 {
